@@ -19,7 +19,7 @@ def shards_for(run: Run) -> list[dict]:
     for j in range(16):
         shards.append(
             {
-                "prop": PROP, "judges": JUDGES, "modes": MODES, "source": "random", "profile": "stack",
+                "prop": PROP, "judges": JUDGES, "modes": MODES, "source": "random", "profile": "stack", "long_inputs": 2 if j % 2 else 0,
                 "seed": seed_int(PROP, run.seed, j), "count": nrand, "cap": run.pick(200, 500), "maxlen": run.pick(5, 6),
                 "sample_at": 300 * j, "maxdepth": 4,
             }
